@@ -120,6 +120,25 @@ def decode_case(m, name_sel, imp):
     return {'names': names, 'imports': imports}
 
 
+def concrete_valid(case):
+    names, imports = case['names'], case['imports']
+    loaded, todo = set(), ['/r']
+    while todo:
+        d = todo.pop()
+        if d in loaded or d not in DIRS:
+            continue
+        loaded.add(d)
+        for k, rel in imports.get(d, []):
+            todo.append(norm(d + '/' + rel))
+    for d in loaded:
+        for k, rel in imports.get(d, []):
+            t = norm(d + '/' + rel)
+            if t not in DIRS or names.get(t) != k:
+                return False
+    named = [names[d] for d in loaded if names[d] is not None]
+    return len(named) == len(set(named))
+
+
 def native_case(case, repo, runs=1):
     """Real binary on generated directories; returns list of (rc, stderr tail)."""
     binpath, info = build_native(repo)
@@ -220,7 +239,8 @@ def run(prop, tier, seed, repo, jobs):
             if ob['name'] in ('accepted_imports_match_project_names', 'accepted_projects_have_unique_names'):
                 confirmed = rc == 0
             elif ob['name'] == 'valid_arrangements_are_accepted':
-                confirmed = True
+                # the documented rules, evaluated on the concrete arrangement: a valid one must be accepted by the real binary
+                confirmed = concrete_valid(ob['case']) and rc != 0
             else:
                 confirmed = rc not in (0, 1)
         except Exception as ex:   # pragma: no cover
